@@ -30,6 +30,10 @@ def run(chk, tier):
         # R07.8 'calls without an applicable pattern fail loudly or fall through as documented': fall-through needs every pattern to have
         # *rejected* the arguments - a pattern that cannot be evaluated (matcher error) is an error, never a rejection
         E.selector_rules(chk, F, cfg, r_scan='R07.8', r_pure='R07.8.pure', r_ord='R07.8.ord', r_bump=None)
+        # R07.9 'fail loudly': the failure of a call without an applicable pattern is remembered where every clone sees it, on whichever thread
+        # it happens, before the panic - a panic that is caught must not leave a mock that verifies green (shared with C08)
+        from props import c08 as c08_
+        c08_.records_before_panic(chk, F, 'R07.9', cfg, 'nostd' in cfg)
         # R07.2 fallback mode: set by the constructors, never written
         L.clone_and_ctor(chk, F, 'R07.2', cfg)
         acc = L.field_accesses(F, 'state::SharedState', 'fallback_mode')
